@@ -37,6 +37,7 @@ pub const ELISION_IN_START_RULE: &str = "E032";
 pub const REDEFINE_AS_PART: &str = "E033";
 pub const START_AS_PART: &str = "E034";
 pub const CROSSING_CLOSE_NODE: &str = "E035";
+pub const CREATE_NODE_IN_ORDERED_CHOICE: &str = "E036";
 
 pub const UNUSED_RULE: &str = "W001";
 pub const UNUSED_TOKEN: &str = "W002";
@@ -74,6 +75,7 @@ pub trait LanguageErrors {
     fn undefined_create_node(span: &Span) -> Self;
     fn invalid_create_node(span: &Span, open_span: &Span) -> Self;
     fn crossing_create_node(span: &Span, open_span: &Span) -> Self;
+    fn create_node_in_ordered_choice(span: &Span) -> Self;
     fn create_rule_node_left_rec(span: &Span) -> Self;
     fn unused_node_marker(span: &Span) -> Self;
     fn redundant_elision(span: &Span) -> Self;
@@ -336,6 +338,14 @@ impl LanguageErrors for Diagnostic {
                 Label::secondary((), open_span.clone()).with_message("node marked here"),
             ])
             .with_note("note: a node marker is consumed by a node creation for an earlier marker")
+    }
+
+    fn create_node_in_ordered_choice(span: &Span) -> Self {
+        Diagnostic::error()
+            .with_code(CREATE_NODE_IN_ORDERED_CHOICE)
+            .with_message("node creation in ordered choice for a position outside of it")
+            .with_label(Label::primary((), span.clone()))
+            .with_note("note: backtracking cannot undo a node that was inserted in front of the choice; use the commit operator `~` before the creation or move the node marker into the branch")
     }
 
     fn create_rule_node_left_rec(span: &Span) -> Self {
